@@ -120,6 +120,9 @@ def run(chk):
 
 
 def handle_rot(chk, index, d, known, what):
+    for u in index.get("unexplained", []):
+        chk.violation(f"C and LLVM back ends disagree bit-wise on a {what} that contains no re-associated sum/product",
+                      {k: u.get(k) for k in ("assignment", "formats", "inputs", "ir", "env", "llvm", "c")})
     diffs = index.get("differences", [])
     chk.count(f"c_vs_llvm_differences_{what}", len(diffs))
     if not diffs:
